@@ -23,8 +23,12 @@ RULE = ("/proc/net/dev files printed by the kernel printer of coq/C09/Spec.v fro
         "fields, blank lines, missing colon -> AssertionError, short headers, '\\r', 0x1c-0x1f, U+0085/U+2003/U+00A0, "
         "undecodable bytes inside lines) compared with the model's error class; the text layer itself (Coq decoder, universal "
         "newlines, str.split/strip, the complete str.isspace table over all 1114112 code points) against CPython; disk_usage over "
-        "statvfs tuples with f_bsize and f_frsize independent (equal, larger, smaller, huge, 0). Both calls are made with "
-        "nowrap=False and with nowrap=True on a cleared cache. A case is non-trivial when at least one interface/device/non-zero "
+        "statvfs tuples with f_bsize and f_frsize independent (equal, larger, smaller, huge, 0). Single-poll cases call with "
+        "nowrap=False and with nowrap=True on a cleared cache; history cases make 3-5 successive calls of "
+        "net_io_counters(pernic=...) / disk_io_counters(perdisk=...) with the DEFAULT arguments over changing files: devices "
+        "vanish for a poll and come back lower or higher, a poll lists nothing at all, pernic/perdisk alternate, counters of a "
+        "device listed in consecutive polls never decrease (class steady/emptypoll: every poll must equal that poll's kernel "
+        "counters) or do decrease (class wrap: compared with the _WrapNumbers model only). A case is non-trivial when at least one interface/device/non-zero "
         "block count/byte is present; distinct = distinct canonical case hash.")
 TRUSTED = ["correspondence harness props/C09.py + pv/ (fake /proc/net/dev, /proc/diskstats, /sys/block via pv.shim, os.statvfs patch)",
            "kernel formats of /proc/net/dev (net/core/net-procfs.c), dev_valid_name (net/core/dev.c), /proc/diskstats and "
@@ -38,7 +42,10 @@ ASSUMPTIONS = ["int() on a token containing a non-ASCII character (CPython accep
                "inputs are skipped as OutOfModel (they occur only in the malformed stream)",
                "CPython semantics of str.split/strip/rfind/int, dict insertion order, zip/sum and namedtuple are modelled, not verified",
                "numbers with more than 4300 digits are out of the model (CPython int() limit)",
-               "_wrap_numbers (nowrap=True across several calls) belongs to property C10; here only the first call on a cleared cache",
+               "_wrap_numbers: modelled (cache rebinding, reminders, dead-key removal); the property demand over several polls is stated "
+               "only for histories without a decrease between consecutive polls -- genuine wraps belong to property C10",
+               "an IndexError inside _WrapNumbers.run (tuples of different length) cannot occur with the fixed-width tuples and is not "
+               "modelled statefully",
                "percent is compared as round(exact rational, 1) with either neighbour accepted within 1e-6 of a tie (IEEE double "
                "arithmetic of float(used)/total*100 is trusted)",
                "the /sys/block name of a device is taken as str: decoding and the '/'->'!' rewriting are assumed to commute "
@@ -231,6 +238,80 @@ def _mutate_line(rng, line):
     return " ".join(toks)
 
 
+def _bump(rng, vec):
+    """counters of a device that stays listed: none decreases"""
+    return [v + rng.choice([0, 0, 1, 7, 1000, 2 ** 32]) for v in vec]
+
+
+def _net_hist(rng):
+    names = _uniq(rng, NIC_NAMES[:12], rng.choice([1, 2, 3, 4]), extra=NIC_BYTES if rng.random() < 0.2 else None)
+    mode = rng.choice(["steady", "steady", "steady", "emptypoll", "wrap"])
+    npolls = rng.choice([3, 4, 5])
+    cur, prev_present, polls = {}, set(), []
+    empty_at = rng.randrange(1, npolls - 1) if mode == "emptypoll" else None
+    for k in range(npolls):
+        if k == empty_at:
+            present = []
+        else:
+            present = [n for n in names if rng.random() < 0.7] or [names[0]]
+        for n in present:
+            if n in prev_present:
+                cur[n] = _bump(rng, cur[n])
+                if mode == "wrap" and rng.random() < 0.4:
+                    j = rng.randrange(16)
+                    cur[n][j] = cur[n][j] // 2 if cur[n][j] else 0          # a genuine decrease while listed
+            elif n in cur and rng.random() < 0.6:
+                cur[n] = [v // rng.choice([2, 3, 1000]) for v in cur[n]]     # comes back LOWER
+            elif n in cur:
+                cur[n] = [v * 2 + 5 for v in cur[n]]                         # comes back higher
+            else:
+                cur[n] = [rng.choice([5, 1000, 2 ** 33, U64 // 2]) + j for j in range(16)]
+        prev_present = set(present)
+        polls.append({"per": rng.random() < 0.6, "ifs": [{"name": n, "c": list(cur[n])} for n in present]})
+    return {"kind": "nethist", "cls": "nethist-" + mode, "sp": rng.random() < 0.85, "polls": polls}
+
+
+def _disk_hist(rng):
+    groups = rng.sample([("sda", ["sda1", "sda2"]), ("nvme0n1", ["nvme0n1p1"]), ("loop0", []), ("cciss/c0d0", ["cciss/c0d0p1"]),
+                         ("dm-0", []), ("md127", []), ("rd/c0/d0", ["rd/c0/d0p1"])], rng.choice([1, 2, 3]))
+    devs = []
+    for w, parts in groups:
+        devs.append((w, True, rng.choice(["f14", "f20"])))
+        devs += [(p, False, rng.choice(["f14", "f20", "p7"])) for p in parts]
+    mode = rng.choice(["steady", "steady", "steady", "emptypoll", "wrap"])
+    npolls = rng.choice([3, 4, 5])
+    empty_at = rng.randrange(1, npolls - 1) if mode == "emptypoll" else None
+    cur, prev_present, polls = {}, set(), []
+    for k in range(npolls):
+        if k == empty_at:
+            present = []
+        else:
+            present = [d for d in devs if rng.random() < 0.75] or [devs[0]]
+        out = []
+        for name, whole, lay in present:
+            if name in prev_present:
+                cur[name] = _bump(rng, cur[name])
+                if mode == "wrap" and rng.random() < 0.4:
+                    j = rng.randrange(8)
+                    cur[name][j] //= 2
+            elif name in cur and rng.random() < 0.6:
+                cur[name] = [v // rng.choice([2, 5, 1000]) for v in cur[name]]
+            elif name in cur:
+                cur[name] = [v * 3 + 1 for v in cur[name]]
+            else:
+                cur[name] = [rng.choice([7, 5000, 2 ** 34]) + j for j in range(11)]
+            d = {"name": name, "lay": lay, "whole": whole, "major": 8, "minor": len(out)}
+            if lay == "p7":
+                d["f"] = [cur[name][0], cur[name][2], cur[name][4], cur[name][6]]
+            else:
+                d["f"] = list(cur[name])
+                d["extra"] = [1, 2, 3, 4, 5, 6][:int(lay[1:]) - 14]
+            out.append(d)
+        prev_present = {x[0] for x in present}
+        polls.append({"per": rng.random() < 0.55, "devs": out, "others": []})
+    return {"kind": "diskhist", "cls": "diskhist-" + mode, "polls": polls}
+
+
 def gen_cases(rng, tier):
     N = {"quick": 1, "thorough": 14, "search": 2}[tier]
     cases = []
@@ -364,6 +445,11 @@ def gen_cases(rng, tier):
                               "  1 2 3 4 5 6 7 8 9 10 x y z", "1 2 3 4 x 6 7 8 9 10 11\n", "1\t2\n3 4 5 6 7 8 9 10 11 12\n"])
         add({"kind": "sysraw", "cls": "sysfs-malformed", "ents": [["sda", _enc(content).hex()]], "listing": ["sda"]})
     add({"kind": "nosource", "cls": "nosource"})
+    # ---- successive polls with the default arguments (nowrap=True)
+    for _ in range(30 * N):
+        add(_net_hist(rng))
+    for _ in range(24 * N):
+        add(_disk_hist(rng))
     # ---- disk_usage
     for _ in range(80 * N):
         fr = rng.choice([1, 512, 1024, 4096, 4096, 65536, 2 ** 20])
@@ -440,6 +526,14 @@ def coq_term(case):
                                       G.lst([G.by(o) for o in case["listing"]]))
     if k == "nosource":
         return "run_nosource"
+    if k == "nethist":
+        return "run_net_hist %s %s %s" % (G.bo(LEGACY_STRIP), G.bo(case["sp"]), G.lst(
+            ["(%s, %s)" % (G.bo(p["per"]), G.lst(["(mk_nic %s %s)" % (G.by(i["name"]), _zs(i["c"])) for i in p["ifs"]]))
+             for p in case["polls"]]))
+    if k == "diskhist":
+        return "run_disk_hist %s" % G.lst(
+            ["(%s, (%s, %s))" % (G.bo(p["per"]), G.lst([_kdisk(d) for d in p["devs"]]), G.lst([G.by(o) for o in p["others"]]))
+             for p in case["polls"]])
     if k == "dec":
         return "run_dec %s" % G.by(bytes.fromhex(case["content"]))
     if k == "uws":
@@ -464,6 +558,10 @@ def coq_struct(case, raw):
         return {"printed": raw[0], "model": [raw[1], raw[2]], "spec": spec, "in_domain": raw[5], "dev_valid": raw[6]}
     if k in ("dec", "uws"):
         return {"model": raw, "spec": None}
+    if k == "nethist":
+        return {"printed": raw[0], "model": raw[1], "spec": raw[2], "cached": raw[3]}
+    if k == "diskhist":
+        return {"printed": raw[0], "listing": raw[1], "model": raw[2], "spec": raw[3], "cached": raw[4]}
     if k in ("netraw", "diskraw", "nosource"):
         return {"model": raw, "spec": None}
     if k == "disk":
@@ -658,6 +756,30 @@ def impl_run(case, coq, env):
         return _both(disk, psutil.disk_io_counters.cache_clear, sort=True)
     if k == "nosource":
         return _both(disk, psutil.disk_io_counters.cache_clear)
+    if k == "nethist":
+        psutil.net_io_counters.cache_clear()
+        out = []
+        try:
+            for i, p in enumerate(case["polls"]):
+                with open(os.path.join(root, "net", "dev"), "wb") as f:
+                    f.write(unB(coq["printed"][i]))
+                out.append(outcome(lambda: psutil.net_io_counters(pernic=p["per"]), _front))      # default nowrap
+        finally:
+            psutil.net_io_counters.cache_clear()
+        return out
+    if k == "diskhist":
+        psutil.disk_io_counters.cache_clear()
+        out = []
+        try:
+            for i, p in enumerate(case["polls"]):
+                with open(os.path.join(root, "diskstats"), "wb") as f:
+                    f.write(unB(coq["printed"][i]))
+                shutil.rmtree(os.path.join(_st["sys"], "block"), ignore_errors=True)
+                _mk_block([unB(x) for x in coq["listing"][i]])
+                out.append(outcome(lambda: psutil.disk_io_counters(perdisk=p["per"]), _front))   # default nowrap
+        finally:
+            psutil.disk_io_counters.cache_clear()
+        return out
     raise ValueError(k)
 
 
@@ -682,7 +804,7 @@ def _text_run(case, env):
 
 
 MANIFEST = {
-    "text": "Theorems (Coq 8.16, 19, closed under the global context) over a hand-written Gallina transcription of the anchored code, "
+    "text": "Theorems (Coq 8.16, 21, closed under the global context) over a hand-written Gallina transcription of the anchored code, "
             "text-mode reading included (UTF-8/surrogateescape decoding, universal newlines, str.split/strip blanks): for every list of "
             "interfaces whose names are any bytes not beginning/ending with a space and without line breaks -- proved to include every "
             "name dev_valid_name() accepts -- and every 16 digit strings per interface (no bound on magnitude or count), parsing the "
@@ -697,6 +819,9 @@ MANIFEST = {
             "total equals the sum over all device nodes of what was submitted to each: nothing counted twice; the 15-field (Linux "
             "2.4) layout is read one column off (refuted theorem with the kernel documentation's example line; known finding) and "
             "the model's shifted reading is characterised exactly; the legacy name.strip() variant is refuted (fixed finding e02f4b0); "
+            "successive calls with the default nowrap=True (_WrapNumbers modelled) report, for every history in which no counter "
+            "decreases between consecutive polls while its device is listed, exactly each poll's kernel counters -- devices may vanish, "
+            "polls may be empty, devices may come back lower, pernic/perdisk may alternate; "
             "the /sys/block fallback; disk_usage equals total/used/free/percent of the property for every statvfs tuple with f_frsize "
             "as the unit and f_bsize never entering the result, within 0..100 for kernel-shaped tuples. The model is tied to the "
             "real psutil on every run by executing both on kernel-printed and malformed files over a fake /proc and /sys and comparing "
